@@ -14,12 +14,13 @@ RULE = ("every single operation (and, thorough, every 2-operation burst) of the 
         "scheduler) and polling emitter (driven poll by poll on the same real tree); every non-empty src/dest path of "
         "every delivered event (real, synthetic, parent-modified) is checked for type and exact name")
 ASSUMPTIONS = [
-    "paths are compared after os.fsencode + os.path.normpath (a trailing slash of the given root may or may not survive)",
+    "entry names are compared after os.fsencode + os.path.normpath; in addition every path must textually start with the "
+    "watched path as it was given (minus trailing slashes), e.g. base/./R/name for a root given as base/./R",
     "the two observers are held to the same oracle on the same operations; their event sets legitimately differ",
     "filesystem encoding of the process is UTF-8 with surrogateescape (undecodable names round-trip)",
 ]
 
-FORMS = [(t, f) for t in ("str", "bytes", "path") for f in ("abs", "rel", "slash")]
+FORMS = [(t, f) for t in ("str", "bytes", "path") for f in ("abs", "rel", "slash")] + [("str", "dot"), ("bytes", "dot")]
 NAMES = ["ascii", "utf8", "undecodable"]
 
 
@@ -62,6 +63,9 @@ def polling_part(ctx, tier):
                             root_arg = "R"
                         elif form == "slash":
                             root_arg = R + "/"
+                        elif form == "dot":
+                            root_arg = os.path.join(base, ".", "R")
+                        given = os.fsencode(root_arg).rstrip(b"/")
                         if rtype == "bytes":
                             root_arg = os.fsencode(root_arg)
                         elif rtype == "path":
@@ -97,8 +101,12 @@ def polling_part(ctx, tier):
                                 if bb.startswith(Rb + b"/"):
                                     return os.fsdecode(bb[len(Rb) + 1:])
                                 return "!" + os.fsdecode(bb)
+                            def under(p):
+                                bb = os.fsencode(p)
+                                return not bb or bb == given or bb.startswith(given + b"/")
                             rec.append((0, type(e).__name__, rel(e.src_path), rel(e.dest_path), e.is_directory, e.is_synthetic,
-                                        type(e.src_path).__name__ + "/" + type(e.dest_path).__name__))
+                                        type(e.src_path).__name__ + "/" + type(e.dest_path).__name__,
+                                        under(e.src_path) and under(e.dest_path)))
 
                         class R_:  # minimal stand-in for a scheduler result
                             value = dict(events=rec, probe_events=[])
